@@ -7,12 +7,15 @@ package main
 import (
 	"context"
 	"encoding/binary"
+	"errors"
 	"fmt"
 	"io"
 	"net"
+	"os"
 	"runtime"
 	"strconv"
 	"strings"
+	"sync/atomic"
 	"time"
 	"unicode/utf8"
 
@@ -24,21 +27,41 @@ import (
 
 	"verif/harness/hdrgen"
 	"verif/harness/lib"
+	"verif/harness/quiet"
 )
 
-// chunkReader delivers the scripted chunks, then io.EOF.
+// chunkReader delivers the scripted chunks, then the end of the stream: err (io.EOF when nil) from
+// a read of its own, or — with last — from the same Read call that hands out the final bytes of
+// the final chunk (n > 0, err), as the io.Reader contract allows and quic-go does when data and
+// FIN arrive together. Every later Read returns (0, err).
 type chunkReader struct {
 	chunks [][]byte
+	last   bool
+	err    error
+	ended  atomic.Bool // the end of the stream has been handed out
+	closes atomic.Int32
+}
+
+func (c *chunkReader) endErr() error {
+	if c.err != nil {
+		return c.err
+	}
+	return io.EOF
 }
 
 func (c *chunkReader) Read(p []byte) (int, error) {
 	for len(c.chunks) > 0 && len(c.chunks[0]) == 0 {
 		// an empty chunk is a (0, nil) read
 		c.chunks = c.chunks[1:]
+		if len(c.chunks) == 0 && c.last {
+			c.ended.Store(true)
+			return 0, c.endErr()
+		}
 		return 0, nil
 	}
 	if len(c.chunks) == 0 {
-		return 0, io.EOF
+		c.ended.Store(true)
+		return 0, c.endErr()
 	}
 	if len(p) == 0 {
 		return 0, nil
@@ -49,10 +72,14 @@ func (c *chunkReader) Read(p []byte) (int, error) {
 	} else {
 		c.chunks[0] = c.chunks[0][n:]
 	}
+	if len(c.chunks) == 0 && c.last {
+		c.ended.Store(true)
+		return n, c.endErr()
+	}
 	return n, nil
 }
 func (c *chunkReader) Write(p []byte) (int, error) { return len(p), nil }
-func (c *chunkReader) Close() error                { return nil }
+func (c *chunkReader) Close() error                { c.closes.Add(1); return nil }
 func (c *chunkReader) rest() []byte {
 	var out []byte
 	for _, ch := range c.chunks {
@@ -97,10 +124,16 @@ func (a addr) String() string  { return string(a) }
 
 var _ net.Addr = addr("")
 
-// rawMsg captures the bytes handed to UnmarshalVT.
+// rawMsg captures the bytes handed to UnmarshalVT. With merge it behaves like a generated
+// protobuf-go-lite message that is re-used without a Reset by the caller: UnmarshalVT merges
+// into (appends to) what the message already holds; Reset empties it.
 type rawMsg struct {
-	data  []byte
-	reset bool
+	data   []byte
+	reset  bool
+	merge  bool
+	got    []byte // argument of the last UnmarshalVT since the last clearCalls (nil: none)
+	nUnm   int
+	nReset int
 }
 
 func (m *rawMsg) SizeVT() int { return len(m.data) }
@@ -109,8 +142,18 @@ func (m *rawMsg) MarshalToSizedBufferVT(d []byte) (int, error) {
 	return len(m.data), nil
 }
 func (m *rawMsg) MarshalVT() ([]byte, error) { return append([]byte(nil), m.data...), nil }
-func (m *rawMsg) UnmarshalVT(d []byte) error { m.data = append([]byte(nil), d...); return nil }
-func (m *rawMsg) Reset()                     { m.data = nil; m.reset = true }
+func (m *rawMsg) UnmarshalVT(d []byte) error {
+	m.nUnm++
+	m.got = append([]byte{}, d...)
+	if m.merge {
+		m.data = append(m.data, d...)
+	} else {
+		m.data = append([]byte(nil), d...)
+	}
+	return nil
+}
+func (m *rawMsg) Reset()      { m.data = nil; m.reset = true; m.nReset++ }
+func (m *rawMsg) clearCalls() { m.got, m.nUnm, m.nReset = nil, 0, 0 }
 
 var _ pbl.Message = (*rawMsg)(nil)
 
@@ -150,12 +193,24 @@ func coarse(s string) string {
 
 func (e *engine) validUTF8(n int) []byte { return hdrgen.ValidUTF8(e.rng, n) }
 
-func (e *engine) hdrCase(stream []byte, chunks [][]byte, expect string, wantPid, wantRest []byte, gen string) {
+// lastArg is the op-line suffix naming the end mode of the reader.
+func lastArg(last bool) string {
+	if last {
+		return " last=1"
+	}
+	return ""
+}
+
+// hdrCase runs one header stream; last = the reader returns its final bytes together with io.EOF.
+func (e *engine) hdrCase(stream []byte, chunks [][]byte, last bool, expect string, wantPid, wantRest []byte, gen string) {
 	max := transport_controller.VerifStreamEstablishMaxPacketSize()
-	op := fmt.Sprintf("framing.hdr max=%d chunks=%s", max, lib.HexList(chunks))
+	op := fmt.Sprintf("framing.hdr max=%d chunks=%s%s", max, lib.HexList(chunks), lastArg(last))
 	model := e.m.Query(op)
+	if last {
+		gen += "/final-bytes-with-EOF"
+	}
 	impl := lib.Recover(func() string {
-		r := &chunkReader{chunks: cloneChunks(chunks)}
+		r := &chunkReader{chunks: cloneChunks(chunks), last: last}
 		est, err := transport_controller.VerifReadStreamEstablishHeader(r)
 		if err != nil {
 			return "err read"
@@ -171,6 +226,9 @@ func (e *engine) hdrCase(stream []byte, chunks [][]byte, expect string, wantPid,
 		branch = "hdr.ok"
 	} else {
 		branch = "hdr." + strings.TrimPrefix(model, "err ")
+	}
+	if last {
+		branch += ".last"
 	}
 	e.rep.Case(op, model, impl, branch, true)
 	mc := coarse(stripKV(model, "alloc"))
@@ -223,8 +281,9 @@ func trunc(s string) string {
 }
 
 func (e *engine) runC07() {
-	e.rep.Rule = "stream-establish headers: honest (pid length classes around varint boundaries × chunkings × trailing payload) and malformed (zero/oversize/bad varint/truncated/bad protobuf/empty or non-UTF-8 pid/unknown+duplicate fields); distinct = distinct op line"
-	e.rep.Require("hdr.ok", "hdr.io", "hdr.badPrefix", "hdr.badLen", "hdr.badProto", "hdr.badPid")
+	e.rep.Rule = "stream-establish headers: honest (pid length classes around varint boundaries × chunkings × trailing payload) and malformed (zero/oversize/bad varint/truncated/bad protobuf/empty or non-UTF-8 pid/unknown+duplicate fields); every class on a reader that ends with a bare (0, EOF) read AND on one that returns its final bytes together with io.EOF; sentinels: the header alone (opener wrote and closed) in one read / split in the prefix / split in the body ending with data+EOF, and cut at every offset ending the same way; distinct = distinct op line"
+	e.rep.Require("hdr.ok", "hdr.io", "hdr.badPrefix", "hdr.badLen", "hdr.badProto", "hdr.badPid",
+		"hdr.ok.last", "hdr.io.last", "hdr.badPrefix.last", "hdr.badLen.last", "hdr.badProto.last", "hdr.badPid.last")
 	max := int(transport_controller.VerifStreamEstablishMaxPacketSize())
 	lens := []int{1, 2, 3, 4, 5, 60, 124, 125, 126, 127, 128, 129, 130, 200, 16379, 16380, 16381, 16382, 16383, 16384, 16390, 40000, max - 5, max - 4}
 	nHonest := 120 * e.a.Scale
@@ -268,7 +327,33 @@ func (e *engine) runC07() {
 			k := e.rng.Intn(len(chunks) + 1)
 			chunks = append(chunks[:k:k], append([][]byte{{}}, chunks[k:]...)...)
 		}
-		e.hdrCase(stream, chunks, expect, pid, rest, "honest")
+		if len(stream) > 3000 {
+			// long headers cost the model's list-append reader quadratic time: one end mode each
+			e.hdrCase(stream, chunks, i%2 == 0, expect, pid, rest, "honest")
+		} else {
+			e.hdrCase(stream, chunks, false, expect, pid, rest, "honest")
+			e.hdrCase(stream, chunks, true, expect, pid, rest, "honest")
+		}
+		if i < 8 {
+			// sentinels: the complete header and nothing else (the opener wrote it and closed), in
+			// one read / split inside the 4-byte prefix / split inside the body, ending with data+EOF
+			// (rejected by a reader that drops the bytes returned with the error); and the same header
+			// cut at every offset, ending the same way (accepted, zero-padded, by a reader that takes
+			// data+EOF for completion without counting)
+			for _, cut := range []int{0, 1 + i%3, min(len(hdr)-1, 4+i)} {
+				cs := [][]byte{hdr}
+				if cut > 0 && cut < len(hdr) {
+					cs = [][]byte{hdr[:cut], hdr[cut:]}
+				}
+				e.hdrCase(hdr, cs, true, expect, pid, nil, "header-then-end")
+				e.hdrCase(hdr, cs, false, expect, pid, nil, "header-then-end")
+			}
+			if len(hdr) < 400 {
+				for k := 1; k < len(hdr); k++ {
+					e.hdrCase(hdr[:k], e.rng.Chunk(hdr[:k], e.rng.Intn(3)), true, "reject", nil, nil, "truncated-at-every-offset")
+				}
+			}
+		}
 	}
 	// malformed
 	nBad := 160 * e.a.Scale
@@ -276,7 +361,7 @@ func (e *engine) runC07() {
 		mc := hdrgen.Malformed(e.rng, i, max)
 		stream, gen, expect, wantPid, wantRest := mc.Stream, mc.Gen, mc.Expect, mc.WantPid, mc.WantRest
 		chunks := e.rng.Chunk(stream, e.rng.Intn(4))
-		e.hdrCase(stream, chunks, expect, wantPid, wantRest, gen)
+		e.hdrCase(stream, chunks, i%2 == 1, expect, wantPid, wantRest, gen)
 	}
 	// UTF-8 validity: model vs utf8.Valid
 	nU := 400 * e.a.Scale
@@ -324,7 +409,71 @@ func le32(n uint32) []byte {
 	return b
 }
 
-func (e *engine) pktCase(max uint32, chunks [][]byte, bufs []int, gen string, want []string, wantEnd string) {
+// rxOpts says how the underlying reader of a receive-side case ends and how the reader of the
+// connection behaves.
+type rxOpts struct {
+	last   bool      // the final bytes arrive in the same Read as the end of the stream
+	endErr *endError // the stream ends with this error instead of io.EOF
+	lag    bool      // the consumer lags: it lets the pump reach the end of the stream (queue full) before draining
+}
+
+func (o rxOpts) tag() string {
+	t := ""
+	if o.last {
+		t += "/final-bytes-with-error"
+	}
+	if o.endErr != nil {
+		t += "/custom-error"
+	}
+	if o.lag {
+		t += "/lagging-reader"
+	}
+	return t
+}
+
+// waitEnded waits (bounded; synchronisation only, no verdict depends on it) until the underlying
+// reader has handed out the end of the stream and the pump goroutine has come to rest.
+func waitEnded(r *chunkReader) {
+	quiet.Settle(func() int {
+		if r.ended.Load() {
+			return 1
+		}
+		return 0
+	}, 50*time.Microsecond, 3, 100*time.Millisecond)
+}
+
+// endClass canonicalises a terminal error of the receive side: the underlying error itself
+// ("src": io.EOF stays "eof"), io.ErrUnexpectedEOF, a deadline, anything else.
+func endClass(err error, o rxOpts) string {
+	switch {
+	case o.endErr != nil && err == error(o.endErr):
+		return "src"
+	case err == io.EOF:
+		return "eof"
+	case err == io.ErrUnexpectedEOF:
+		return "ueof"
+	case err == context.DeadlineExceeded || errors.Is(err, os.ErrDeadlineExceeded):
+		return "timeout"
+	}
+	return "err"
+}
+
+// normEndTok maps the model's terminal condition to what the real code reports for it: a length
+// error is "err"; when the stream ends with a custom error, io.ReadFull returns that error itself
+// where it would have returned io.EOF / io.ErrUnexpectedEOF.
+func normEndTok(s string, o rxOpts) string {
+	s = strings.Replace(s, "end=zero", "end=err", 1)
+	s = strings.Replace(s, "end=large", "end=err", 1)
+	if o.endErr != nil {
+		s = strings.Replace(s, "end=eof", "end=src", 1)
+		s = strings.Replace(s, "end=ueof", "end=src", 1)
+	}
+	return s
+}
+
+const extraCalls = 3 // calls made after the first error: each must fail again
+
+func (e *engine) pktCase(max uint32, chunks [][]byte, bufs []int, gen string, want []string, wantEnd string, o rxOpts) {
 	bs := make([]string, len(bufs))
 	for i := range bufs {
 		bs[i] = strconv.Itoa(bufs[i])
@@ -333,16 +482,33 @@ func (e *engine) pktCase(max uint32, chunks [][]byte, bufs []int, gen string, wa
 	if len(bs) > 0 {
 		bl = strings.Join(bs, ",")
 	}
-	op := fmt.Sprintf("framing.pkt max=%d chunks=%s bufs=%s", max, lib.HexList(chunks), bl)
+	gen += o.tag()
+	op := fmt.Sprintf("framing.pkt max=%d chunks=%s bufs=%s%s", max, lib.HexList(chunks), bl, lastArg(o.last))
 	model := e.m.Query(op)
+	mon := ""
 	impl := lib.Recover(func() string {
 		ctx, cancel := context.WithCancel(context.Background())
 		defer cancel()
-		r := &chunkReader{chunks: cloneChunks(chunks)}
-		pc := rwc.NewPacketConn(ctx, r, addr("l"), addr("r"), max, 3)
+		r := &chunkReader{chunks: cloneChunks(chunks), last: o.last}
+		if o.endErr != nil {
+			r.err = o.endErr
+		}
+		const queueN = 3
+		pc := rwc.NewPacketConn(ctx, r, addr("l"), addr("r"), max, queueN)
 		var reads []string
 		end := ""
+		lagAt := -1
+		if o.lag {
+			// read until exactly queueN packets can still be queued in front of the last one
+			lagAt = max0(len(want) - 1 - queueN)
+			if want == nil {
+				lagAt = 0
+			}
+		}
 		for i := 0; ; i++ {
+			if i == lagAt {
+				waitEnded(r)
+			}
 			bl := 1000000
 			if i < len(bufs) {
 				bl = bufs[i]
@@ -355,14 +521,15 @@ func (e *engine) pktCase(max uint32, chunks [][]byte, bufs []int, gen string, wa
 				continue
 			}
 			if err != nil {
-				if err == io.EOF {
-					end = "eof"
-				} else if err == io.ErrUnexpectedEOF {
-					end = "ueof"
-				} else if err == context.DeadlineExceeded {
-					end = "timeout"
-				} else {
-					end = "err"
+				end = endClass(err, o)
+				// the connection has ended: it stays ended (model-independent)
+				for k := 0; k < extraCalls; k++ {
+					n2, _, err2 := pc.ReadFrom(buf)
+					if (err2 == nil || n2 != 0) && mon == "" {
+						mon = fmt.Sprintf("PacketConn.ReadFrom returned %d bytes, error %v AFTER the connection had ended with %q: bytes following the end were framed as a packet", n2, err2, err.Error())
+					} else if err2 != err && mon == "" {
+						mon = fmt.Sprintf("PacketConn.ReadFrom reported %q, then %q: the terminal error changed", err.Error(), err2.Error())
+					}
 				}
 				break
 			}
@@ -374,29 +541,32 @@ func (e *engine) pktCase(max uint32, chunks [][]byte, bufs []int, gen string, wa
 		}
 		return fmt.Sprintf("pkts=%s end=%s", rs, end)
 	})
-	normEnd := func(s string) string {
-		s = strings.Replace(s, "end=zero", "end=err", 1)
-		s = strings.Replace(s, "end=large", "end=err", 1)
-		return s
-	}
 	endTok := model[strings.LastIndex(model, "end=")+4:]
 	branch := "pkt.end." + endTok
 	e.rep.Case(op, model, impl, branch, true)
-	mon := ""
+	if o.last {
+		e.rep.Branches["pkt.last"]++
+	}
+	if o.lag {
+		e.rep.Branches["pkt.lag"]++
+	}
+	if o.endErr != nil {
+		e.rep.Branches["pkt.customerr"]++
+	}
 	if want != nil {
 		w := "pkts=_"
 		if len(want) > 0 {
 			w = "pkts=" + strings.Join(want, ",")
 		}
 		w += " end=" + wantEnd
-		if normEnd(impl) != w {
-			mon = "packet stream (" + gen + ") not delivered exactly: want " + trunc(w) + " got " + trunc(impl)
+		if impl != normEndTok(w, o) && mon == "" {
+			mon = "packet stream (" + gen + ") not delivered exactly: want " + trunc(normEndTok(w, o)) + " got " + trunc(impl)
 		}
 	}
 	if strings.HasPrefix(impl, "panic") {
 		mon = "panic in packet conn (" + gen + ")"
 	}
-	if normEnd(model) != normEnd(impl) || mon != "" {
+	if normEndTok(model, o) != impl || mon != "" {
 		d := lib.Disagreement{Op: op, Model: model, Impl: impl, Branch: branch, Key: "framing.pkt:" + gen}
 		if mon != "" {
 			d.Monitor, d.What = "confirmed", mon
@@ -407,28 +577,94 @@ func (e *engine) pktCase(max uint32, chunks [][]byte, bufs []int, gen string, wa
 	}
 }
 
-func (e *engine) sessCase(max uint32, chunks [][]byte, gen string, want []string, wantEnd string) {
-	op := fmt.Sprintf("framing.sess max=%d chunks=%s", max, lib.HexList(chunks))
+func max0(n int) int {
+	if n < 0 {
+		return 0
+	}
+	return n
+}
+
+// sessCase: RecvMsg until the first error and extraCalls calls beyond it. reuse = ONE message
+// object with merge semantics is handed to every call and never Reset by the caller.
+func (e *engine) sessCase(max uint32, chunks [][]byte, gen string, want []string, wantEnd string, o rxOpts, reuse bool) {
+	gen += o.tag()
+	if reuse {
+		gen += "/reused-message"
+	}
+	op := fmt.Sprintf("framing.sess max=%d chunks=%s%s", max, lib.HexList(chunks), lastArg(o.last))
 	model := e.m.Query(op)
+	mon := ""
+	set := func(m string) {
+		if mon == "" {
+			mon = m
+		}
+	}
+	var calls []string
 	impl := lib.Recover(func() string {
-		r := &chunkReader{chunks: cloneChunks(chunks)}
+		r := &chunkReader{chunks: cloneChunks(chunks), last: o.last}
+		if o.endErr != nil {
+			r.err = o.endErr
+		}
 		s := stream_packet.NewSession(r, max)
 		var msgs []string
 		end := ""
-		for {
+		var firstErr error
+		after := 0
+		shared := &rawMsg{merge: true}
+		for after < extraCalls {
 			m := &rawMsg{}
+			var before []byte
+			if reuse {
+				m = shared
+				before = append([]byte(nil), m.data...)
+			}
+			m.clearCalls()
 			err := s.RecvMsg(m)
 			if err != nil {
-				if err == io.EOF {
-					end = "eof"
-				} else if err == io.ErrUnexpectedEOF {
-					end = "ueof"
-				} else {
-					end = "err"
+				switch c := endClass(err, o); c {
+				case "eof":
+					calls = append(calls, "EOF")
+				case "ueof":
+					calls = append(calls, "UEOF")
+				case "src":
+					calls = append(calls, "SRC")
+				default:
+					calls = append(calls, "LARGE")
 				}
-				break
+				if firstErr == nil {
+					firstErr = err
+					end = endClass(err, o)
+				} else {
+					after++
+				}
+				continue
 			}
-			msgs = append(msgs, lib.Hex(m.data))
+			payload := m.got // what UnmarshalVT was handed; nil = the message was only Reset
+			calls = append(calls, lib.Hex(payload))
+			if firstErr != nil {
+				// model-independent: the session has ended, nothing may be delivered any more
+				after++
+				set(fmt.Sprintf("Session.RecvMsg returned the message %s AFTER it had failed with %q: the stream was not ended and bytes following the bad prefix are framed as messages", q(payload), firstErr.Error()))
+				continue
+			}
+			msgs = append(msgs, lib.Hex(payload))
+			if m.nUnm+m.nReset == 0 {
+				set("Session.RecvMsg returned nil without giving the message object anything (neither UnmarshalVT nor Reset)")
+			}
+			if m.nUnm > 1 {
+				set("Session.RecvMsg called UnmarshalVT more than once for one message")
+			}
+			if reuse {
+				// the message object the caller holds after the call: an empty message received
+				// leaves it empty; a non-empty one leaves exactly the payload (if the callee resets)
+				// or, by the merge convention of UnmarshalVT, the payload merged into what it held
+				switch {
+				case len(payload) == 0 && len(m.data) != 0:
+					set(fmt.Sprintf("an EMPTY message was received into a re-used message object, which still holds the previous message %s afterwards (it was not Reset)", q(m.data)))
+				case len(payload) != 0 && string(m.data) != string(payload) && string(m.data) != string(before)+string(payload):
+					set(fmt.Sprintf("after receiving %s the re-used message object holds %s", q(payload), q(m.data)))
+				}
+			}
 		}
 		ms := "_"
 		if len(msgs) > 0 {
@@ -436,25 +672,49 @@ func (e *engine) sessCase(max uint32, chunks [][]byte, gen string, want []string
 		}
 		return fmt.Sprintf("msgs=%s end=%s", ms, end)
 	})
-	normEnd := func(s string) string { return strings.Replace(s, "end=large", "end=err", 1) }
 	endTok := model[strings.LastIndex(model, "end=")+4:]
 	branch := "sess.end." + endTok
 	e.rep.Case(op, model, impl, branch, true)
-	mon := ""
+	if o.last {
+		e.rep.Branches["sess.last"]++
+	}
+	if reuse {
+		e.rep.Branches["sess.reuse"]++
+	}
 	if want != nil {
 		w := "msgs=_"
 		if len(want) > 0 {
 			w = "msgs=" + strings.Join(want, ",")
 		}
 		w += " end=" + wantEnd
-		if normEnd(impl) != w {
-			mon = "session message stream (" + gen + ") not delivered exactly: want " + trunc(w) + " got " + trunc(impl)
+		if impl != normEndTok(w, o) {
+			set("session message stream (" + gen + ") not delivered exactly: want " + trunc(normEndTok(w, o)) + " got " + trunc(impl))
 		}
 	}
 	if strings.HasPrefix(impl, "panic") {
 		mon = "panic in session (" + gen + ")"
 	}
-	if normEnd(model) != normEnd(impl) || mon != "" {
+	// call level: every call, retries after the error included, against the model's recvCalls
+	if !strings.HasPrefix(impl, "panic") {
+		cop := fmt.Sprintf("framing.sesscalls max=%d chunks=%s n=%d%s", max, lib.HexList(chunks), len(calls), lastArg(o.last))
+		cm := e.m.Query(cop)
+		ci := "calls=_"
+		if len(calls) > 0 {
+			ci = "calls=" + strings.Join(calls, ",")
+		}
+		if o.endErr != nil {
+			cm = strings.ReplaceAll(strings.ReplaceAll(cm, "UEOF", "SRC"), "EOF", "SRC")
+		}
+		e.rep.Case(cop, cm, ci, "sess.calls", true)
+		if strings.Contains(cm, "LARGE,LARGE") {
+			e.rep.Branches["sess.calls.sticky"]++
+		}
+		if cm != ci && mon == "" {
+			e.rep.Disagree(lib.Disagreement{Op: cop, Model: trunc(cm), Impl: trunc(ci), Branch: "sess.calls", Key: "framing.sess:" + gen, Monitor: "unconfirmed",
+				What: "model and implementation disagree on successive RecvMsg calls (" + gen + ")"})
+		}
+	}
+	if normEndTok(model, o) != impl || mon != "" {
 		d := lib.Disagreement{Op: op, Model: model, Impl: impl, Branch: branch, Key: "framing.sess:" + gen}
 		if mon != "" {
 			d.Monitor, d.What = "confirmed", mon
@@ -463,6 +723,14 @@ func (e *engine) sessCase(max uint32, chunks [][]byte, gen string, want []string
 		}
 		e.rep.Disagree(d)
 	}
+}
+
+func q(b []byte) string {
+	s := lib.Hex(b)
+	if len(s) > 48 {
+		s = s[:48] + "…"
+	}
+	return s
 }
 
 // writeCapture records what the real writers put on the wire.
@@ -476,8 +744,9 @@ func (w *writeCapture) Write(p []byte) (int, error) {
 func (w *writeCapture) Close() error { return nil }
 
 func (e *engine) runC08() {
-	e.rep.Rule = "packet streams: 0–40 packets (sizes 1..max incl. max) framed by the real writers, re-chunked 4 ways; corrupted prefixes (zero, over-limit) at a random packet; truncation; small reader buffers; writer side: 3–7 goroutines × 1–12 tagged packets through the real WriteTo (stream that holds the caller's slice over a scheduling point and copies late) and the real SendMsg (stream without atomic writes), single-P forced schedules and free-running, wire read back through the real reader; one underlying Write taking full / n-1 / 0 / header only / random part / failing; distinct = distinct op line"
-	e.rep.Require("pkt.end.eof", "pkt.end.ueof", "pkt.end.zero", "pkt.end.large", "sess.end.eof", "sess.end.ueof", "sess.end.large", "frame")
+	e.rep.Rule = "packet streams: 0–40 packets (sizes 1..max incl. max) framed by the real writers, re-chunked 4 ways; corrupted prefixes (zero, over-limit) at a random packet; truncation; small reader buffers; writer side: 3–7 goroutines × 1–12 tagged packets through the real WriteTo (stream that holds the caller's slice over a scheduling point and copies late) and the real SendMsg (stream without atomic writes), single-P forced schedules and free-running, wire read back through the real reader; one underlying Write taking full / n-1 / 0 / header only / random part / failing; receive side also with the final bytes arriving together with io.EOF or a custom error, a consumer lagging behind a full queue until the pump reached the end of the stream, 3 further ReadFrom / RecvMsg calls after the first error (every call compared with the call-level model), an over-limit prefix followed by well-formed frames, one merging message object re-used without Reset, framed bursts against a lagging ReadFrom (queue capacity 1/2/3/32) with WriteTo sharing the arena; distinct = distinct op line"
+	e.rep.Require("pkt.end.eof", "pkt.end.ueof", "pkt.end.zero", "pkt.end.large", "sess.end.eof", "sess.end.ueof", "sess.end.large", "frame",
+		"pkt.last", "pkt.lag", "pkt.customerr", "sess.last", "sess.reuse", "sess.calls", "sess.calls.sticky")
 	n := 100 * e.a.Scale
 	for i := 0; i < n; i++ {
 		max := uint32(1 + e.rng.Intn(300))
@@ -593,7 +862,11 @@ func (e *engine) runC08() {
 				}
 			}
 		}
-		e.pktCase(max, chunks, bufs, gen, want, wantEnd)
+		o := rxOpts{last: i%2 == 1, lag: i%3 == 0}
+		if i%5 == 2 {
+			o.endErr = &endError{code: 1 + e.rng.Intn(9)}
+		}
+		e.pktCase(max, chunks, bufs, gen, want, wantEnd, o)
 
 		// Session: same packets as messages (plus empty messages), framed by SendMsg
 		wc2 := &writeCapture{}
@@ -651,14 +924,39 @@ func (e *engine) runC08() {
 				}
 			}
 		}
-		e.sessCase(max, e.rng.Chunk(sstream, (i+1)%4), sgen, swant, sEnd)
+		e.sessCase(max, e.rng.Chunk(sstream, (i+1)%4), sgen, swant, sEnd, rxOpts{last: o.last, endErr: o.endErr}, i%4 < 2)
+		if i < 12 {
+			// sentinel: an over-limit prefix whose announced "message" consists of well-formed frames.
+			// A session that does not end at the bad prefix returns them as messages on the next calls.
+			var inner []byte
+			for j := 0; j < 3; j++ {
+				b := e.rng.Bytes(1 + e.rng.Intn(int(min(max, 6))))
+				inner = append(append(inner, le32(uint32(len(b)))...), b...)
+			}
+			k := e.rng.Intn(len(msgs) + 1)
+			off := 0
+			for j := 0; j < k; j++ {
+				off += 4 + len(msgs[j])
+			}
+			var good []byte
+			var gwant []string
+			for j := 0; j < k; j++ {
+				good = append(append(good, le32(uint32(len(msgs[j])))...), msgs[j]...)
+				gwant = append(gwant, lib.Hex(msgs[j]))
+			}
+			if gwant == nil {
+				gwant = []string{}
+			}
+			bad := append(append(good, le32(max+uint32(len(inner))+1)...), inner...)
+			e.sessCase(max, e.rng.Chunk(bad, i%4), "over-limit-then-frames", gwant, "err", rxOpts{last: i%2 == 0}, i%2 == 1)
+		}
 	}
 }
 
 // ---- C09 ----
 
 func (e *engine) runC09() {
-	e.rep.Rule = "buffered conn: random chunk streams (chunk sizes 1..6000, crossing the 2048 pump buffer) read with buffer sizes 0..4096; Conn.Write of 0..7000 bytes against writers taking 1 / 7 / 2047 / 2048 / 2049 / mixed / 0 bytes per call, failing at a random call in a third of the cases; streams ending with io.EOF or a custom error value, alone or in the same Read as the last chunk (chunks up to 5 KiB, empty chunks), read to the end and 3–5 reads beyond; distinct = distinct op line"
+	e.rep.Rule = "buffered conn: random chunk streams (chunk sizes 1..6000, crossing the 2048 pump buffer) read with buffer sizes 0..4096; Conn.Write of 0..7000 bytes against writers taking 1 / 7 / 2047 / 2048 / 2049 / mixed / 0 bytes per call, failing at a random call in a third of the cases; streams ending with io.EOF or a custom error value, alone or in the same Read as the last chunk (chunks up to 5 KiB, empty chunks), read to the end and 3–5 reads beyond; final chunk + error behind a full queue (capacity 1..3, consumer lagging by exactly the capacity); order monitor kept on after reported short buffers; bursts with queue capacity 1/2/3/32; Close and expired read deadlines with data queued; distinct = distinct op line"
 	e.rep.Require("conn.short", "conn.noshort", "conn.split")
 	n := 150 * e.a.Scale
 	for i := 0; i < n; i++ {
@@ -712,7 +1010,16 @@ func (e *engine) runC09() {
 			r := &chunkReader{chunks: cloneChunks(chunks)}
 			c := rwc.NewConn(ctx, r, addr("l"), addr("r"), 3)
 			var reads []string
-			pos := 0
+			pos, pi := 0, 0
+			// where each pump read ends in the stream: one underlying chunk per Read, cut to 2048
+			var pieceEnd []int
+			off := 0
+			for _, ch := range chunks {
+				for l := len(ch); l > 0; l -= min(l, 2048) {
+					off += min(l, 2048)
+					pieceEnd = append(pieceEnd, off)
+				}
+			}
 			for _, bl := range bufs {
 				buf := make([]byte, bl)
 				_ = c.SetReadDeadline(time.Now().Add(10 * time.Second))
@@ -723,20 +1030,32 @@ func (e *engine) runC09() {
 					}
 					break
 				}
-				// property monitor (model-independent): until a short buffer has been reported,
-				// returned bytes are exactly the next unread bytes of the written stream.
-				if pos >= 0 {
-					if pos+nr > len(all) || string(all[pos:pos+nr]) != string(buf[:nr]) {
-						mon = "conn read returned bytes that are not the next unread bytes (no short buffer reported before)"
+				// property monitor (model-independent): every Read returns the NEXT unread bytes of the
+				// written stream; bytes are skipped only by a Read that reported io.ErrShortBuffer, and
+				// then no more than the rest of the one pump read (<= 2048 bytes of one underlying
+				// chunk) it was serving — so the position after a short read is known too.
+				if pi >= len(pieceEnd) {
+					mon = "conn read returned data beyond the end of the written stream"
+					break
+				}
+				if pos+nr > len(all) || string(all[pos:pos+nr]) != string(buf[:nr]) {
+					if mon == "" {
+						mon = fmt.Sprintf("conn read #%d returned bytes that are not the next unread bytes (stream offset %d; every byte skipped so far was covered by a reported short buffer)", pi, pos)
 					}
-					pos += nr
 				}
 				if err == io.ErrShortBuffer {
+					if pos+nr >= pieceEnd[pi] && mon == "" {
+						mon = fmt.Sprintf("conn read #%d reported a short buffer although nothing was left to discard", pi)
+					}
 					reads = append(reads, lib.Hex(buf[:nr])+"!")
-					pos = -1 // data was discarded with notice; positions after this are checked against the model only
 				} else {
+					if pos+nr != pieceEnd[pi] && mon == "" {
+						mon = fmt.Sprintf("conn read #%d returned %d bytes without reporting a short buffer, but the pump read it served holds %d: bytes were dropped or merged silently", pi, nr, pieceEnd[pi]-pos)
+					}
 					reads = append(reads, lib.Hex(buf[:nr]))
 				}
+				pos = pieceEnd[pi]
+				pi++
 			}
 			rs := "_"
 			if len(reads) > 0 {
@@ -791,7 +1110,7 @@ func (e *engine) runC09Burst() {
 		}
 		ctx, cancel := context.WithCancel(context.Background())
 		g := &gatedReader{ch: make(chan []byte, 64)}
-		c := rwc.NewConn(ctx, g, addr("l"), addr("r"), 32)
+		c := rwc.NewConn(ctx, g, addr("l"), addr("r"), []int{32, 2, 1, 32, 3}[i%5])
 		var got []byte
 		mon := ""
 		readOne := func() {
@@ -840,12 +1159,14 @@ func main() {
 		e.runC07()
 	case "C08":
 		e.runC08()
+		e.runC08Burst()
 		e.runC08Writers()
 	case "C09":
 		e.runC09()
 		e.runC09Burst()
 		e.runC09Write()
 		e.runC09End()
+		e.runC09Close()
 	default:
 		fmt.Println("unknown property", a.Prop)
 		return
